@@ -58,3 +58,8 @@ package main
 //@   requires 0 <= i && i < len(injectors) && 0 <= j && j < len(injectors)
 //@ func gather$2
 //@   requires 0 <= i && i < len(groups) && 0 <= j && j < len(groups)
+
+//@ func (*showCmd).Execute$2
+//@   requires out != nil && t != nil && ((v is *wire.Provider) || (v is *wire.Value) || (v is *wire.Field))
+//@ func mergeTypeSets$1
+//@   requires dst != nil && k != nil
